@@ -21,6 +21,7 @@ import (
 // + pools + DirectConnections) between simulated clients and simulated MySQL
 // backends on a simulated network, all inside one synctest bubble.
 type World struct {
+	everNS  []*server.Namespace
 	R       *simkit.Run
 	Net     *simnet.Net
 	Cl      *mysim.Cluster
@@ -90,6 +91,13 @@ func NewWorld(r *simkit.Run, nss map[string]*models.Namespace, o WorldOpts) (*Wo
 	w := &World{R: r, Net: simnet.New(), NS: nss}
 	w.Cl = mysim.NewCluster(w.Net, r.Now, nil)
 	verifhook.DialFn = w.Net.Dial
+	// every namespace object the proxy builds (also staged ones that are never committed) is remembered,
+	// so that Shutdown can close its pools and no timer goroutine outlives the run
+	verifhook.Hooks["server.NewNamespace"] = func(v interface{}) {
+		if n, ok := v.(*server.Namespace); ok && n != nil {
+			w.everNS = append(w.everNS, n)
+		}
+	}
 	verifhook.RankFn = func(k interface{}) string {
 		// time wheel keys are *server.Session values: order them by their connection id
 		if s, ok := k.(interface{ VerifConnID() uint32 }); ok {
@@ -206,9 +214,16 @@ func (w *World) Shutdown() {
 	done := make(chan struct{})
 	go func() {
 		defer close(done)
-		defer func() { recover() }()
-		for _, ns := range server.VerifAllNamespaces(w.Manager) {
-			ns.Close(false)
+		seen := map[*server.Namespace]bool{}
+		for _, ns := range append(server.VerifAllNamespaces(w.Manager), w.everNS...) {
+			if seen[ns] {
+				continue
+			}
+			seen[ns] = true
+			func() {
+				defer func() { recover() }()
+				ns.Close(false)
+			}()
 		}
 	}()
 	select {
